@@ -121,10 +121,15 @@ Theorem C14_omission_rules :
   (forall rows z isos m env t,
      element_activity rows z isos m env t =
      concat (map (fun ia => if Qeq_bool (m * snd ia * (1 # 100)) 0 then []
-                            else isotope_activity rows z (fst ia) (m * snd ia * (1 # 100))%Q env t) isos)).
+                            else isotope_activity rows z (fst ia) (m * snd ia * (1 # 100))%Q env t) isos)) /\
+  (* a sample is the concatenation of what its constituents contribute (entries of one product are added) *)
+  (forall rows m env t cs1 cs2,
+     sample_activity rows m env t (cs1 ++ cs2) = (sample_activity rows m env t cs1 ++ sample_activity rows m env t cs2)%list
+     /\ (forall cst, sample_activity rows m env t [cst] = constituent_activity rows m env t cst)).
 Proof.
   exact (conj (fun cfg r amass mass env t => conj (fast_omitted cfg r amass mass env t) (fast_included cfg r amass mass env t))
-        (conj (fun r env => conj (epithermal_omitted r env) (epithermal_included r env)) natural_is_abundance_sum)).
+        (conj (fun r env => conj (epithermal_omitted r env) (epithermal_included r env))
+              (conj natural_is_abundance_sum sample_is_sum_of_constituents))).
 Qed.
 Print Assumptions C14_omission_rules.
 
